@@ -93,6 +93,7 @@ func checkC02(r *Run) propMeta {
 	checkWithCarryReadsAlias(r, op, cg)
 	checkClauseSymbolsAlwaysDeclared(r, op)
 	checkModelBoundsNotOverridden(r, op, r.MustPkg("cypher/models/pgsql/translate"))
+	checkPlanBoundDomain(r, op, r.MustPkg("cypher/models/pgsql/translate"))
 	r.Floor("C02-R1-guard-slice", 12)
 	return meta
 }
